@@ -778,6 +778,22 @@ parameter(struct scope *s)
 }
 
 static void
+checkmember(struct type *t, char *name, struct type *mt)
+{
+	struct member *m;
+	unsigned long long offset = 0;
+
+	if (name) {
+		if (typemember(t, name, &offset))
+			error(&tok.loc, "duplicate member '%s'", name);
+	} else {
+		/* members of an anonymous struct/union are members of the containing struct/union */
+		for (m = mt->u.structunion.members; m; m = m->next)
+			checkmember(t, m->name, m->type);
+	}
+}
+
+static void
 addmember(struct structbuilder *b, struct qualtype mt, char *name, int align, unsigned long long width)
 {
 	struct type *t = b->type;
@@ -809,6 +825,7 @@ addmember(struct structbuilder *b, struct qualtype mt, char *name, int align, un
 		error(&tok.loc, "struct member '%s' has variably modified type", name);
 	assert(mt.type->align > 0);
 	if (name || width == -1) {
+		checkmember(t, name, mt.type);
 		m = xmalloc(sizeof(*m));
 		m->type = mt.type;
 		m->qual = mt.qual;
